@@ -31,7 +31,17 @@ HOT_FUNCS = ("optimize", "_run_once", "_apply", "_optimize_skip_rule", "pattern"
 
 
 def optkey(passes):
+    """The optimizer setting: pass names in order; a pass run to a fixed point is written
+    name* (the plan's `fixed_point` list is folded into the names before anything else
+    sees them, so that the call key, the reference and the replay all agree)."""
     return None if passes is None else tuple(passes)
+
+
+def fold_fixed_point(spec):
+    if spec.get("passes") and spec.get("fixed_point"):
+        fp = set(spec["fixed_point"])
+        return {**{k: v for k, v in spec.items() if k != "fixed_point"}, "passes": [p + "*" if p in fp and not p.endswith("*") else p for p in spec["passes"]]}
+    return spec
 
 
 def gen_plan(run_seed: int, k: int, tier: str) -> dict:
@@ -92,11 +102,12 @@ def gen_plan(run_seed: int, k: int, tier: str) -> dict:
     optimizers: dict[str, dict] = {"o_none": {"passes": None}}
     optimizers["o_shared"] = {"passes": list(pool.PASS_NAMES), "shared_default": True}
     for i in range(rng.randint(1, 3)):
-        optimizers[f"o{i}"] = {"passes": pool.random_optimizer_cfg(rng)}
+        ps = pool.random_optimizer_cfg(rng)
+        optimizers[f"o{i}"] = fold_fixed_point({"passes": ps, "fixed_point": pool.random_fixed_point(rng, ps)})
     oids = sorted(optimizers)
 
     counter = [0]
-    churn = rng.random() < 0.05  # swarm knob: this run churns through short-lived parsers
+    churn = rng.random() < 0.08  # swarm knob: this run churns through short-lived parsers
     objects: dict[str, dict] = {}  # id -> {"kind", "g", "opt"}
 
     def new_op(owner):
@@ -191,7 +202,8 @@ def gen_plan(run_seed: int, k: int, tier: str) -> dict:
                 # then k parsers of another grammar -- some of them land on recycled addresses
                 kk = rng.randint(2, 8)
                 ga, gb = rng.sample(gids, 2)
-                o = rng.choice(oids)
+                custom = [x for x in oids if x not in ("o_none", "o_shared")]
+                o = rng.choice(custom) if custom and rng.random() < 0.6 else rng.choice(oids)
                 batch = []
                 for _ in range(kk):
                     a = new_op(c)
@@ -325,12 +337,18 @@ def gen_race_plan(run_seed: int, k: int) -> dict:
             rule, text = rng.choice(calls)
             setup.append({"op": "parse", "t": target, "rule": rule, "text": text, "pos": 0})
         clients = []
-        same = rng.random() < 0.3
+        # what the clients of a round parse: the same call (25 %), different inputs of ONE rule
+        # (45 %: shared per-rule / per-node scratch only matters when both clients are inside
+        # the same rule with inputs that differ), or any calls of the grammar (30 %)
+        r_mode = rng.random()
         first = rng.choice(calls)
+        by_rule = [c2 for c2 in calls if c2[0] == first[0]]
+        if len(by_rule) < 2 or rng.random() < 0.3:
+            by_rule = by_rule + [(first[0], pool.mutate_input(rng, first[1])), (first[0], pool.mutate_input(rng, first[1]))]
         for c in range(rng.choices((2, 3), (7, 3))[0]):
             ops = []
             for _ in range(rng.randint(1, 3)):
-                rule, text = first if same else rng.choice(calls)
+                rule, text = first if r_mode < 0.25 else (rng.choice(by_rule) if r_mode < 0.7 else rng.choice(calls))
                 ops.append({"op": "parse", "t": target, "rule": rule, "text": text, "pos": 0})
             clients.append(ops)
         builder = rng.random() < 0.3
@@ -417,10 +435,22 @@ def make_optimizer(spec):
         return None
     if spec.get("shared_default"):
         return om.DEFAULT_OPTIMIZER
+    import dataclasses  # noqa: PLC0415
+
     by_name = {s.name: s for s in om.DEFAULT_OPTIMIZER_PASSES}
     if list(spec["passes"]) == [s.name for s in om.DEFAULT_OPTIMIZER_PASSES] and spec.get("share_list"):
         return om.Optimizer(om.DEFAULT_OPTIMIZER_PASSES)
-    return om.Optimizer([by_name[n] for n in spec["passes"]])
+    steps = []
+    made: dict = {}
+    for n in spec["passes"]:
+        if n.endswith("*"):
+            # one fixed-point step object per Optimizer and pass, as a user would write it
+            if n not in made:
+                made[n] = dataclasses.replace(by_name[n[:-1]], fixed_point=True)
+            steps.append(made[n])
+        else:
+            steps.append(by_name[n])
+    return om.Optimizer(steps)
 
 
 def load_module(src, name):
